@@ -80,7 +80,7 @@ func (h *Handler) spoofLoop(addr packet.Addr) {
 	nTimes := 0
 	for {
 		h.arpMutex.Lock()
-		targetAddr, hunting := h.findHuntByIP(addr.IP)
+		targetAddr, hunting := h.huntList[string(addr.MAC)] // membership is per MAC, the key of the hunt list
 		h.arpMutex.Unlock()
 
 		if !hunting || h.closed {
